@@ -110,9 +110,14 @@ def one_case(job):
     os.makedirs(jd, exist_ok=True)
     db = os.path.join(jd, "db")
     sid = "C10-%d" % idx
-    world = dict(nkeys=2)
+    big = bool(case.get("big"))
+    nk = 70 if big else 2
+    world = dict(nkeys=nk)
     k1prior = dict(s=1, t=2, ps=1)
-    scA = dict(id=sid, world=world, conc=conc, dir=db, keep_dir=True, prior=priors_for(0, case["before"], idx) + priors_for(1, k1prior, idx + 1),
+    extra = []
+    for j in range(2, nk):     # a well-filled database: many more keys, each with an attestation and a proposal record of its own
+        extra += priors_for(j, dict(s=j % 3, t=j % 3 + 1, ps=(j * 7) % 4), j)
+    scA = dict(id=sid, world=world, conc=conc, dir=db, keep_dir=True, prior=priors_for(0, case["before"], idx) + priors_for(1, k1prior, idx + 1) + extra,
                ops=[dict(id="before", kind="export")], no_export=True)
     pre, rc, err = run_driver([scA], jd, tag="pre", timeout=120)
     if rc != 0:
@@ -139,6 +144,8 @@ def one_case(job):
         data.append(d)
     data.insert(idx % (len(data) + 1), dict(pubkey="0x" + pubs[1], signed_attestations=[dict(source_epoch=num(0), target_epoch=num(1))],
                                            signed_blocks=[dict(slot=num(0))]))
+    for j in range(2, nk):     # the file mentions every key of the big database with old (low) data
+        data.append(dict(pubkey="0x" + pubs[j], signed_attestations=[dict(source_epoch=num(0), target_epoch=num(0))], signed_blocks=[dict(slot=num(0))]))
     meta = dict(interchange_format_version="5", genesis_validators_root=GVR)
     bad_detail = None
     if case["meta"] == "badversion":
@@ -208,8 +215,11 @@ def run_c10(tier, seed):
         cases += gen_cases(90 if tier == "quick" else 2500, seed, wd)
         exe = build_harness("dirkdrv")
         build_dirk()
-        pubs = json.loads(subprocess.run([exe, "-pubkeys", "2"], stdout=subprocess.PIPE, text=True).stdout)
+        pubs = json.loads(subprocess.run([exe, "-pubkeys", "70"], stdout=subprocess.PIPE, text=True).stdout)
         concs = [c for c in concretisations(3, seed, 0)]
+        # a few cases on a database with more than a hundred records (140): per-record handling must not depend on the record count
+        bigcases = [dict(c, big=True) for c in cases if c["meta"] == "ok"][:4 if tier == "quick" else 24]
+        cases = cases + bigcases
         jobs = []
         for i, c in enumerate(cases):
             cname, conc = concs[i % len(concs)]
